@@ -5,7 +5,17 @@ break   : behaviour-breaking edits for the obligations that decide on values (gu
           in-place stores into constructor state)
 neutral : behaviour-preserving refactorings the rules must stay silent on (ternary <-> if/else with inverted test and `continue`, `msg = yield`
           and `while 1`, getattr/delattr loops over a constant tuple, slice objects, np.transpose / np.identity / np.fill_diagonal / np.dot
-          spellings, partition-first post-multiplication, temporaries, De Morgan on the dispatch of generator())"""
+          spellings, partition-first post-multiplication, temporaries, De Morgan on the dispatch of generator())
+
+Second hardening pass: the blocks of verifier/c08_recipe_blocks.py (whole-function refactorings verified byte-identical over 240,923 digests) are
+"neutral" recipes; every construct the engine learnt for them has "break" recipes - the same refactored form with one wrong edit inside:
+  batch side   : per-step indexing instead of whole-history slices, tuple state carried by the time loop, a helper closure, a local array read
+                 back by the loop, a dict of matrices, loop variable counting the stored column
+  generator    : cache in a dict + nested helper functions + one loop for all configurations + try/finally; functools.partial over a function
+                 picked from a tuple by `order == 1`, operator.attrgetter / itemgetter, lambda, starred unpacking and calls, list.append, zip over
+                 a string; `yield from` a generator method / a nested generator function
+  typestate    : setattr loop over zip, `body(*args)`, generator.send(None) / __next__(), chained + starred unpacking, dict state + **kwargs"""
+from .c08_recipe_blocks import BLOCKS
 
 UNC = "pyyeti/ode/solveunc.py"
 SE2 = "pyyeti/ode/solveexp2.py"
@@ -128,3 +138,94 @@ RECIPES = [
      "                eye = np.identity(self.ksize)\n                tmp = B * eye - B * (alpha * pc.Bp)\n                flex = np.dot(phik @ tmp, np.transpose(phik))\n",
      "_get_f2x_real_unc: distributed product, np.identity / np.dot / np.transpose"),
 ]
+
+
+def _neutral(key, desc):
+    rel, old, new = BLOCKS[key]
+    return ("C08", "neutral", [], rel, old, new, desc)
+
+
+def _break(key, rules, a, b, desc):
+    """the refactored form of block `key` with the edit a -> b inside"""
+    rel, old, new = BLOCKS[key]
+    assert new.count(a) == 1, (key, a, new.count(a))
+    return ("C08", "break", rules, rel, old, new.replace(a, b), desc)
+
+
+RECIPES += [
+    _neutral("batch_inner", "batch inner loop: one loop for both orders, range(nt - 1) storing into column k + 1, force columns read directly"),
+    _neutral("batch_cdf", "batch damping-as-force: per-step force terms, (d, v, damping force) carried as a tuple, implicit velocity solve in a nested function"),
+    _neutral("batch_cx_rb", "batch complex solver: rigid-body state carried as a tuple, tuple store"),
+    _neutral("batch_cx_el", "batch complex solver: the modal state is read back from the y array, loop variable counts the stored column"),
+    _neutral("batch_se2", "SolveExp2.tsolve: halves of the force integral taken before the loop, matrices in a dict, range(1, nt)"),
+    _neutral("gen_cdf_dict", "damping-as-force generator: cache in a dict, nested helper functions, one loop for all configurations, try/finally"),
+    _neutral("gen_real_partial", "real generator: functools.partial of a function picked from a tuple by `order == 1`, attrgetter / itemgetter, lambda, "
+                                 "starred unpacking, list.append + starred call, zip over a string"),
+    _neutral("gen_se2_yieldfrom", "SolveExp2 generator: `yield from` a generator static method (rf only) and a nested generator function (rb/el)"),
+    _neutral("gen_cdf_tuple", "damping-as-force generator (one loop): cached force and its step carried as a tuple"),
+    _neutral("gen_cdf_namespace", "damping-as-force generator (one loop): cached force and its step in a SimpleNamespace, recompute-if-stale statement"),
+    _neutral("ts_unc_generator", "SolveUnc.generator: setattr loop over zip, body picked by a conditional expression, body(*args), generator.send(None)"),
+    _neutral("ts_se2_generator", "SolveExp2.generator: chained assignment with starred unpacking, generator.__next__()"),
+    _neutral("ts_finalize", "finalize: published arrays taken into a dict by a helper (getattr / delattr with built names), **state calls, dict.pop"),
+    # ---- one wrong edit inside each new form
+    _break("batch_inner", ["C08-R2"], "            fnext = fk[:, k + 1]", "            fnext = fk[:, k]", "refactored batch loop reads the force of the wrong column"),
+    _break("batch_inner", ["C08-R2"], "        D[:, k + 1] = dprev = dnew", "        D[:, k + 1] = dnew", "refactored batch loop never advances the displacement it carries"),
+    _break("batch_cdf", ["C08-R2"], "            state = dnew, vnew, dmpfrc1", "            state = dnew, vnew, dmpfrc0", "tuple state of the batch loop carries the stale damping force"),
+    _break("batch_cdf", ["C08-R2"], "abfp - Ap * dmpfrc0", "abfp + Ap * dmpfrc0", "sign of the damping force in the refactored batch step"),
+    _break("batch_cdf", ["C08-R2"], "            return frc, v_part - Bp * frc", "            return frc, v_part - B * frc", "nested helper of the batch step uses the displacement coefficient"),
+    _break("batch_cx_rb", ["C08-R2c"], "                    rbstate = dnew, vnew", "                    rbstate = dlast, vnew", "tuple state of the rigid-body loop keeps the old displacement"),
+    _break("batch_cx_el", ["C08-R2c"], "y[:, i] = Fe * y[:, i - 1] + ABF[:, i - 1]", "y[:, i] = Fe * y[:, i - 1] + ABF[:, i]", "elastic loop reads the force term of the wrong step"),
+    _break("batch_se2", ["C08-R2"], 'E["vd"] @ d0 + E["vv"] @ v0 + PQF_v[:, old]', 'E["vd"] @ d0 + E["vv"] @ v0 + PQF_d[:, old]', "velocity takes the displacement half of the force integral"),
+    _break("batch_se2", ["C08-R2"], "                    old = new - 1", "                    old = new", "refactored tsolve loop computes a column from itself"),
+    _break("batch_se2", ["C08-R2"], '"dv": self.E_dv', '"dv": self.E_vd', "dict of matrices: E_dv and E_vd exchanged"),
+    _break("gen_cdf_dict", ["C08-R1"], '            if cache["step"] != i - 1:\n                return bo @ vi', '            if cache["step"] != i:\n                return bo @ vi',
+           "dict cache: guard compares with the current step"),
+    _break("gen_cdf_dict", ["C08-R1"], '            cache["step"] = i\n', "            pass\n", "dict cache: the tag is never updated"),
+    _break("gen_cdf_dict", ["C08-R1"], '            cache["force"] = dmpfrc1', "            pass", "dict cache: the force is never stored"),
+    _break("gen_cdf_dict", ["C08-R1"], '            cache["force"] += dmpfrc1_addon', "            pass", "dict cache: an add-on does not update the cached force"),
+    _break("gen_cdf_dict", ["C08-R2"], "            return vec[kdof] if have_rf else vec", "            return vec[rf] if have_rf else vec", "nested helper picks the rf part of the force"),
+    _break("gen_cdf_dict", ["C08-R1"], '        cache = {"force": bo @ V[:, 0], "step": 0}', '        cache = {"force": bo @ V[:, 0], "step": 1}', "dict cache tagged with step 1"),
+    _break("gen_cdf_dict", ["C08-R2"], "            vi = V[:, i - 1]\n            dmpfrc0 = damping_force_at_start(i, vi)", "            vi = V[:, i]\n            dmpfrc0 = damping_force_at_start(i, vi)",
+           "nested step function reads the velocity of the column being written"),
+    _break("gen_cdf_dict", ["C08-R3"], "                    if first_order:\n                        add_on(i, F1)", "                    if not first_order:\n                        add_on(i, F1)",
+           "add-on helper called for the zero-order hold only"),
+    _break("gen_cdf_tuple", ["C08-R1"], "cdstate[0] if cdstate[1] == i - 1 else bo @ vi", "cdstate[0] if cdstate[1] == i else bo @ vi", "tuple state: guard compares with the current step"),
+    _break("gen_cdf_tuple", ["C08-R1"], "                        cdstate = alpha @ v_part, i\n", "                        cdstate = alpha @ v_part, cdstate[1]\n", "tuple state: the tag is never advanced"),
+    _break("gen_cdf_tuple", ["C08-R1", "C08-R3"], "                        cdstate = frc, step\n", "                        cdstate = cdstate[0] - dmpfrc1_addon, step\n", "tuple state: the add-on moves the cached force the wrong way"),
+    _break("gen_cdf_tuple", ["C08-R1"], "                cdstate = bo @ V[:, 0], i_last\n", "                cdstate = bo @ D[:, 0], i_last\n", "tuple state: initial cache from the displacement"),
+    _break("gen_cdf_namespace", ["C08-R1"], "                        if cd.step != i - 1:\n                            cd.force = bo @ vi", "                        if cd.step == i - 1:\n                            cd.force = bo @ vi",
+           "namespace state: recomputes only when the cache is valid"),
+    _break("gen_cdf_namespace", ["C08-R1"], "                        cd.step = i\n", "                        cd.step = i - 1\n", "namespace state: the tag names the step before the one solved"),
+    _break("gen_cdf_namespace", ["C08-R1"], "                        cd.force += dmpfrc1_addon\n", "                        pass\n", "namespace state: an add-on does not update the cached force"),
+    _break("gen_real_partial", ["C08-R2"], "_REAL_UNC_STEP = (_real_unc_zoh, _real_unc_foh)", "_REAL_UNC_STEP = (_real_unc_foh, _real_unc_zoh)", "dispatch tuple the wrong way round"),
+    _break("gen_real_partial", ["C08-R2"], "            coefs = F, G, A + B, B, Fp, Gp, Ap + Bp, Bp", "            coefs = F, G, A + B, B, Fp, Gp, Ap, Bp", "zero-order coefficients: Ap instead of Ap + Bp"),
+    _break("gen_real_partial", ["C08-R2"], "            F, G, AB, *_, Fp, Gp, ABp, _ = coefs", "            F, G, AB, *_, Gp, Fp, ABp, _ = coefs", "starred unpacking exchanges Fp and Gp"),
+    _break("gen_real_partial", ["C08-R3"], 'zip("DV", (coefs[3], coefs[-1]))', 'zip("VD", (coefs[3], coefs[-1]))', "add-on loop pairs the arrays with the wrong coefficients"),
+    _break("gen_real_partial", ["C08-R2"], "                args = [pick(Force[:, i - 1])]", "                args = [pick(Force[:, i])]", "argument list built from the force of the current column"),
+    _break("gen_real_partial", ["C08-R2"], "            pick = operator.itemgetter(kdof)", "            pick = operator.itemgetter(rf)", "itemgetter picks the rf partition"),
+    _break("gen_real_partial", ["C08-R2"], 'operator.attrgetter("F", "G", "A", "B", "Fp", "Gp", "Ap", "Bp")', 'operator.attrgetter("F", "G", "B", "A", "Fp", "Gp", "Ap", "Bp")',
+           "attrgetter fetches A and B in the wrong order"),
+    _break("gen_real_partial", ["C08-R2"], '_REAL_UNC_STEP[first_order], arrays["D"], arrays["V"], coefs', '_REAL_UNC_STEP[first_order], arrays["V"], arrays["D"], coefs',
+           "partial binds the velocity array as the displacement array"),
+    _break("gen_se2_yieldfrom", ["C08-R2"], "                d[:, i] = ikrf * F1[rf] if diag else ikrf @ F1[rf]", "                d[:, i - 1] = ikrf * F1[rf] if diag else ikrf @ F1[rf]",
+           "sub-generator stores into the previous column"),
+    _break("gen_se2_yieldfrom", ["C08-R3"], "                d[:, i] += ikrf * F1[rf] if diag else ikrf @ F1[rf]", "                d[:, i] = ikrf * F1[rf] if diag else ikrf @ F1[rf]",
+           "sub-generator: the add-on overwrites instead of accumulating"),
+    _break("gen_se2_yieldfrom", ["C08-R2"], "            yield from sends(d[kdof], v[kdof], lambda vec: vec[kdof])", "            yield from sends(d[kdof], v[kdof], lambda vec: vec[rf])",
+           "lambda handed to the nested generator picks the rf part"),
+    _break("gen_se2_yieldfrom", ["C08-R2"], "            yield from sends(d[kdof], v[kdof], lambda vec: vec[kdof])", "            yield from sends(v[kdof], d[kdof], lambda vec: vec[kdof])",
+           "nested generator receives v and d exchanged"),
+    _break("gen_se2_yieldfrom", ["C08-R3"], "                        PQF = Q @ kpart(F1)\n                        D[:, i] += PQF[ksize:]\n                        V[:, i] += PQF[:ksize]",
+           "                        PQF = Q @ kpart(F1)\n                        D[:, i] += PQF[:ksize]\n                        V[:, i] += PQF[ksize:]", "nested generator: add-on halves exchanged"),
+    _break("gen_se2_yieldfrom", ["C08-R1"], "            rf, ikrf = rf_part\n        while True:", "            rf, ikrf = rf_part\n        yield\n        while True:",
+           "sub-generator parks at an extra yield (the first send is swallowed)"),
+    _break("ts_unc_generator", ["C08-R5"], 'zip(("_d", "_v", "_a", "_force"), arrays)', 'zip(("_d", "_v", "_force", "_a"), arrays)', "setattr loop publishes a and force exchanged"),
+    _break("ts_unc_generator", ["C08-R5"], "            args = d, v, F0", "            args = v, d, F0", "argument tuple of the body: d and v exchanged"),
+    _break("ts_unc_generator", ["C08-R5"], "        d, v, a = arrays[:3]", "        d, v, a = arrays[1:4]", "slice of the published arrays shifted by one"),
+    _break("ts_unc_generator", ["C08-R5"], "        generator.send(None)\n", "        pass\n", "generator not primed"),
+    _break("ts_se2_generator", ["C08-R5"], "self._d, self._v, self._a, self._force = d, v, *_ =", "self._v, self._d, self._a, self._force = d, v, *_ =", "chained unpacking publishes d and v exchanged"),
+    _break("ts_se2_generator", ["C08-R5"], "        generator.__next__()\n", "        pass\n", "SolveExp2 generator not primed"),
+    _break("ts_finalize", ["C08-R5"], '            state[key] = getattr(self, "_" + key)', '            state[key] = getattr(self, "_" + ("v" if key == "d" else key))', "dict state: the velocity published as displacement"),
+    _break("ts_finalize", ["C08-R5"], '        for key in state:\n            delattr(self, "_" + key)', '        for key in ("d", "v"):\n            delattr(self, "_" + key)', "only d and v are forgotten"),
+]
+
